@@ -268,8 +268,31 @@ def main():
 
     rc, out = build_harness()
     if rc != 0:
-        print("ERROR harness build failed (the repository does not compile with hooks on?)\n" + out[-3000:])
-        return 2
+        # Does the crate still compile on its own?  If it does, it is the instrumentation (cfg nexosim_verif hooks, which
+        # reach into private fields) that no longer fits the code: the correspondence cannot be run, so the property is no
+        # longer shown to hold — a violation without a failing input, the build log being the replay.
+        env = {"CARGO_TARGET_DIR": os.path.join(CACHE, "target_plain"), "RUSTFLAGS": ""}
+        rc2, out2 = sh(["cargo", "check", "-p", "nexosim", "--offline"], cwd="/repo", timeout=1800, env=env)
+        if rc2 != 0:
+            print("ERROR the repository does not compile (with or without the verification hooks)\n" + out2[-3000:])
+            return 2
+        body = (f"# property {pid}: the correspondence cannot be built\n"
+                f"# /repo compiles on its own, but not with the verification hooks (--cfg nexosim_verif) the engines of this\n"
+                f"# property need: the code the hooks reach into has changed, so model and implementation can no longer be run\n"
+                f"# side by side and the theorems of {cfg['props_module']} are no longer known to describe the code\n"
+                "# build log (tail)\n" + "\n".join("# " + l for l in out.splitlines()[-60:]) + "\n")
+        path = write_replay(pid, "build", body)
+        evidence = {"property_id": pid, "tier": tier, "seed": seed, "level": "proof",
+                    "coverage": {"obligations": proofs["obligations"], "discharged": proofs["discharged"],
+                                 "checker_cmd": f"cd /verif/lean && lake build {cfg['props_module']}",
+                                 "trusted_base": TRUSTED_BASE_COMMON + cfg.get("trusted_base", []),
+                                 "evaluations": 0, "explanation": "the harness does not build against the current tree with the hooks on; nothing was compared"},
+                    "assumptions": cfg.get("assumptions", []), "wall_s": round(time.time() - t0, 2), "violations": 1}
+        with open(evidence_path, "w") as f:
+            json.dump(evidence, f, indent=1)
+        print(f"[{pid}/{tier}] theorems {proofs['discharged']}/{proofs['obligations']} checked; correspondence: the harness does not build with the hooks on")
+        print(f"VIOLATION property={pid} replay={os.path.relpath(path, ROOT)} no-failing-input-found")
+        return 1
     if not os.path.exists(DRIVER):
         print("ERROR model driver missing: " + DRIVER)
         return 2
